@@ -587,6 +587,10 @@ func propC02(c *Ctx) {
 		ruleHandlerActive(c, rha)
 		rcv := c.Rule("catch-var-fresh", "the catch clause binds the error to a fresh variable (OpDefineLocal): the variable's definition at the end of the try body is skipped on the throwing path, and OpSetLocal would write through whatever cell the reused slot still holds", 1)
 		ruleCatchVarFresh(c, rcv)
+		rsp := c.Rule("stack-index-paired", "the compiler's stack of open loops and the index of the innermost one move together: the function that decrements the index also shortens the slice", 1)
+		ruleStackIndexPaired(c, rsp)
+		rco := c.Rule("compound-op-agree", "the operator emitted for a compound assignment is the one the token package's spelling table pairs with it (`%=` with `%`): x op= y is x = x op y", 8)
+		ruleCompoundOpAgree(c, rco)
 		rbc := c.Rule("blank-never-const", "the blank identifier is never made a constant symbol: it can be declared again in the same scope", 2)
 		ruleBlankNeverConst(c, rbc)
 		rfc := c.Rule("free-const", "the symbol of a captured variable inherits the Constant flag: a constant cannot be assigned from inside a function literal", 1)
